@@ -1,8 +1,8 @@
 package checks
 
 import (
-	"os"
 	"fmt"
+	"os"
 	"sort"
 	"strings"
 	"sync"
